@@ -422,6 +422,8 @@ pub fn scaffold() -> Vec<Def> {
         Def::Let("sv2", E::FnRef("sub2")),
         Def::Let("cv", E::FnRef("cons")),
         Def::Fn("ap2", vec!["fn2", "ua", "ub"], vec![], E::CallVal(Box::new(v("fn2")), vec![v("ua"), v("ub")]), ""),
+        // a parameter named like a global function, used in call position: it must refer to the argument
+        Def::Fn("apf", vec!["ff", "uv"], vec![], E::CallVal(Box::new(v("ff")), vec![v("uv")]), "fn apf(ff: Fn[(Scalar) -> Scalar], uv: Scalar) -> Scalar = ff(uv)"),
         Def::Let("pv", E::Struct(vec![("b", n(5.0)), ("a", n(4.0))])),
         Def::Let("xs", E::List(vec![n(7.0), n(8.0), n(9.0)])),
         Def::Let("yv", n(50.0)),
@@ -564,6 +566,7 @@ impl Gen {
                         for f in fa.iter() {
                             for b in ra.iter() {
                                 out.push(call("ap", vec![f.clone(), b.clone()]));
+                                out.push(call("apf", vec![f.clone(), b.clone()]));
                                 if !matches!(f, E::FnRef(_)) {
                                     out.push(E::CallVal(Box::new(f.clone()), vec![b.clone()]));
                                 }
